@@ -120,14 +120,14 @@ def make_inputs():
 _CACHE = {}
 
 
-def run_main(ctx, model, interp, with_table, system=None, cellmass=None):
-    key = (interp, with_table, system, str(cellmass))
+def run_main(ctx, model, interp, with_table, system=None, cellmass=None, sample=None):
+    key = (interp, with_table, system, str(cellmass), str(sample))
     if key not in _CACHE:
-        _CACHE[key] = _run_main(ctx, model, interp, with_table, system, cellmass)
+        _CACHE[key] = _run_main(ctx, model, interp, with_table, system, cellmass, sample)
     return _CACHE[key]
 
 
-def _run_main(ctx, model, interp, with_table, system=None, cellmass=None):
+def _run_main(ctx, model, interp, with_table, system=None, cellmass=None, sample=None):
     input01, input02 = make_inputs()
     captured = {}
 
@@ -162,7 +162,7 @@ def _run_main(ctx, model, interp, with_table, system=None, cellmass=None):
     f = model.func(REF)
     mod = model.mods["cij.cli.static"]
     kwargs = dict(input01="input01", input02=("elast.dat" if with_table else None), interp=interp, ntv=NTV, cellmass=cellmass,
-                  v_ratio=VR, p_min=PMIN, delta_p=DP, delta_p_sample=None, system=system)
+                  v_ratio=VR, p_min=PMIN, delta_p=DP, delta_p_sample=sample, system=system)
     ev.call_def(f, mod, REF, [], kwargs)
     out = captured.get("out")
     if not isinstance(out, Printed) or not isinstance(out.df, DFV):
@@ -239,6 +239,25 @@ def r_eos(ctx, model):
                                   + {"V": "the reported volume in A^3", "F": "the fitted (input, in mode none) energy at the reported volume in eV",
                                      "P": "-dF_fit/dV of the second-order finite-strain fit in GPa"}[col],
                       key=f"{interp}.{col}")
+
+
+def r_sampling(ctx, model):
+    """--delta-p-sample keeps every k-th row of the pressure-mode table, k the integer NEAREST to delta_p_sample/delta_p
+    (the quotient of two decimal floats such as 0.3/0.1 lies just below the integer: truncation or floor division loses a row)"""
+    w = model.where(REF)
+    DPS = sp.Symbol("DPSAMPLE", positive=True)
+    for interp in ("pressure", "volume", "none"):
+        df, cap = run_main(ctx, model, interp, with_table=False, sample=DPS)
+        got = getattr(df, "sampled", None)
+        if interp == "pressure":
+            from ..dfmodel import nearest_int_form
+            ok = got is not None and nearest_int_form(got) == DPS / DP
+            ctx.check(ok, "pressure mode: rows kept every round(delta_p_sample / delta_p)", w, expected="df.iloc[::round(delta_p_sample/delta_p)]",
+                      found=f"step {got}", explanation="the sampled rows do not sit at multiples of delta_p_sample: the step is not the integer nearest to "
+                      "delta_p_sample/delta_p (truncation/floor of a float quotient such as 0.3/0.1 = 2.9999999999999996 gives 2)", key="sampling.step")
+        else:
+            ctx.check(got is None, f"mode {interp}: --delta-p-sample does not thin the table", w, expected="no sampling", found=f"step {got}",
+                      explanation="rows are dropped in a mode that has no pressure grid", key=f"sampling.{interp}")
 
 
 def r_table(ctx, model):
@@ -377,6 +396,7 @@ def r_library(ctx, model):
 
 RULES = [
     ("R18.1-3,6", "V, F, P columns per mode: values, units (A^3, eV, GPa), pressure sign, pressure grid, converted once", r_eos),
+    ("R18.6b", "--delta-p-sample: every round(delta_p_sample/delta_p)-th row, pressure mode only", r_sampling),
     ("R18.4-5,7,9", "density, 21 modulus columns, six VRH columns, three velocities per mode; system and cellmass options", r_table),
     ("R18.4b", "matrix inverted for the Reuss averages is the symmetric assembly of the modulus columns", r_assembly),
     ("R18.8,10", "library conformance: unpack arity of the qha fit; no read-only view reaches the compiled fit", r_library),
